@@ -138,6 +138,8 @@ def correspond(ctx, scale):
             kwargs['mask'] = m
             x = torch.where(m[..., None], x, torch.full_like(x, 1e6 if rng.random() < 0.5 else -3e4))   # adversarial padding
         first_mode = rng.choice(['eval', 'train', 'frozen'])
+        if big:
+            first_mode = ['eval', 'frozen'][(ci // 6) % 2]       # the initialisation invariants are read off a pure first call: big batches always get one
         vq.train(first_mode != 'eval')
         if first_mode == 'frozen':
             kwargs['freeze_codebook'] = True
